@@ -180,7 +180,7 @@ func runImplServe(s ServeCase) (obs serveObs) {
 			break
 		}
 		if time.Now().After(deadline) {
-			obs.err = "endpoint never reached the scripted readiness"
+			obs.err = "timeout: endpoint never reached the scripted readiness"
 			return
 		}
 		time.Sleep(2 * time.Millisecond)
@@ -248,14 +248,14 @@ func runImplServe(s ServeCase) (obs serveObs) {
 		select {
 		case <-arrived:
 		case <-time.After(10 * time.Second):
-			obs.err = "the upstream never saw the request"
+			obs.err = "timeout: the upstream never saw the request"
 		}
 		cancel() // the client goes away
 	}
 	select {
 	case <-done:
 	case <-time.After(30 * time.Second):
-		obs.err = "dispatcher.ServeHTTP did not return within 30 s"
+		obs.err = "timeout: dispatcher.ServeHTTP did not return within 30 s"
 		return
 	}
 	obs.status = rec.Code
@@ -283,6 +283,9 @@ func runServe(c *rig.Ctx, s ServeCase, record bool) bool {
 	impl := map[string]interface{}{"status": obs.status, "panicked": obs.panicked, "free_during": obs.duringFree, "free_after": obs.afterFree}
 	if obs.ownLimit != "" {
 		return fail("judge", "c05.serve-limit-not-own", obs.ownLimit, impl, nil)
+	}
+	if strings.HasPrefix(obs.err, "timeout:") {
+		return inconclusive(c, "serve", obs.err) // a wall-clock wait ran out (twice): decides nothing
 	}
 	if obs.err != "" {
 		return fail("diff", "c05.serve-rig", "the dispatcher rig could not run: "+obs.err, impl, nil)
